@@ -48,22 +48,68 @@ pub mod clock {
     }
 }
 
-/// The global slot chain's slots plus one extra statistic slot (order decides its place), so that
-/// a harness can observe what the statistic slots are told (block error, pass/blocked/completed).
-pub fn slot_chain_with(extra: std::sync::Arc<dyn crate::base::StatSlot>) -> std::sync::Arc<crate::base::SlotChain> {
+/// Bits selecting the default slots for [`slot_chain_of`].
+pub mod slots {
+    pub const SYSTEM: u32 = 1;
+    pub const FLOW: u32 = 2;
+    pub const ISOLATION: u32 = 4;
+    pub const HOTSPOT: u32 = 8;
+    pub const BREAKER: u32 = 16;
+    pub const STAT_RESOURCE: u32 = 32;
+    pub const STAT_LOG: u32 = 64;
+    pub const STAT_FLOW: u32 = 128;
+    pub const STAT_HOTSPOT: u32 = 256;
+    pub const STAT_BREAKER: u32 = 512;
+    pub const ALL: u32 = 1023;
+}
+
+/// A slot chain made of the default prepare slot, the selected default check/statistic slots
+/// (the same objects the global chain uses) and optionally one extra statistic slot, so that a
+/// harness can observe what statistic slots are told or leave out slots it does not exercise.
+pub fn slot_chain_of(
+    mask: u32,
+    extra: Option<std::sync::Arc<dyn crate::base::StatSlot>>,
+) -> std::sync::Arc<crate::base::SlotChain> {
     use crate::{circuitbreaker, flow, hotspot, isolation, stat, system};
     let mut sc = crate::base::SlotChain::new();
     sc.add_stat_prepare_slot(stat::default_resource_node_prepare_slot());
-    sc.add_rule_check_slot(system::default_slot());
-    sc.add_rule_check_slot(flow::default_slot());
-    sc.add_rule_check_slot(isolation::default_slot());
-    sc.add_rule_check_slot(hotspot::default_slot());
-    sc.add_rule_check_slot(circuitbreaker::default_slot());
-    sc.add_stat_slot(stat::default_resource_stat_slot());
-    sc.add_stat_slot(crate::log::default_stat_slot());
-    sc.add_stat_slot(flow::default_stand_alone_stat_slot());
-    sc.add_stat_slot(hotspot::default_stand_alone_stat_slot());
-    sc.add_stat_slot(circuitbreaker::default_metric_stat_slot());
-    sc.add_stat_slot(extra);
+    if mask & slots::SYSTEM != 0 {
+        sc.add_rule_check_slot(system::default_slot());
+    }
+    if mask & slots::FLOW != 0 {
+        sc.add_rule_check_slot(flow::default_slot());
+    }
+    if mask & slots::ISOLATION != 0 {
+        sc.add_rule_check_slot(isolation::default_slot());
+    }
+    if mask & slots::HOTSPOT != 0 {
+        sc.add_rule_check_slot(hotspot::default_slot());
+    }
+    if mask & slots::BREAKER != 0 {
+        sc.add_rule_check_slot(circuitbreaker::default_slot());
+    }
+    if mask & slots::STAT_RESOURCE != 0 {
+        sc.add_stat_slot(stat::default_resource_stat_slot());
+    }
+    if mask & slots::STAT_LOG != 0 {
+        sc.add_stat_slot(crate::log::default_stat_slot());
+    }
+    if mask & slots::STAT_FLOW != 0 {
+        sc.add_stat_slot(flow::default_stand_alone_stat_slot());
+    }
+    if mask & slots::STAT_HOTSPOT != 0 {
+        sc.add_stat_slot(hotspot::default_stand_alone_stat_slot());
+    }
+    if mask & slots::STAT_BREAKER != 0 {
+        sc.add_stat_slot(circuitbreaker::default_metric_stat_slot());
+    }
+    if let Some(extra) = extra {
+        sc.add_stat_slot(extra);
+    }
     std::sync::Arc::new(sc)
+}
+
+/// The global slot chain's slots plus one extra statistic slot (order decides its place).
+pub fn slot_chain_with(extra: std::sync::Arc<dyn crate::base::StatSlot>) -> std::sync::Arc<crate::base::SlotChain> {
+    slot_chain_of(slots::ALL, Some(extra))
 }
